@@ -259,6 +259,10 @@ type simTransport struct {
 	// OnSend, if set, is called for every packet handed to the transport
 	// (after recording). It must not block.
 	OnSend func(p sentPkt)
+	// FailSend, if set, is asked first: a non-nil error is the transport's
+	// answer to that write and the packet goes nowhere (an environment answer:
+	// ENETUNREACH, EPERM, a custom transport's refusal ...).
+	FailSend func(p sentPkt) error
 	// OnDial decides stream dials. nil = refuse.
 	OnDial func(addr ml.Address, timeout time.Duration) (net.Conn, error)
 	// SentAfterShutdown counts writes that arrive after Shutdown returned.
@@ -278,6 +282,13 @@ func (t *simTransport) WriteTo(b []byte, a string) (time.Time, error) {
 func (t *simTransport) WriteToAddress(b []byte, a ml.Address) (time.Time, error) {
 	p := sentPkt{To: a.Addr, Name: a.Name, Buf: append([]byte(nil), b...), At: time.Now()}
 	t.mu.Lock()
+	if fs := t.FailSend; fs != nil {
+		t.mu.Unlock()
+		if err := fs(p); err != nil {
+			return time.Time{}, err
+		}
+		t.mu.Lock()
+	}
 	if t.shut {
 		t.SentAfterShutdown++
 	}
